@@ -210,6 +210,38 @@ pub fn run(args: &[String]) {
             let _ = o.flush();
             continue;
         };
+        if mode == "fparts" {
+            // payload of f-string tokens: `FP F <start byte> <hex expr>,<hex expr>..;F ..` (`-` = empty expression),
+            // `FP ERR` when the lexer rejects, `FP PANIC`
+            let r = match catch(|| lexer::lex(&src)) {
+                Err(_) => "FP PANIC".to_string(),
+                Ok(Err(_)) => "FP ERR".to_string(),
+                Ok(Ok(toks)) => {
+                    let mut items: Vec<String> = Vec::new();
+                    for t in &toks {
+                        if let TokenKind::FString(parts) = &t.kind {
+                            let ex: Vec<String> = parts
+                                .iter()
+                                .filter_map(|p| match p {
+                                    lexer::FStringPart::Expr(e) => Some(if e.is_empty() {
+                                        "-".to_string()
+                                    } else {
+                                        e.bytes().map(|b| format!("{:02x}", b)).collect::<String>()
+                                    }),
+                                    _ => None,
+                                })
+                                .collect();
+                            items.push(format!("F {} {}", t.span.start, ex.join(",")));
+                        }
+                    }
+                    format!("FP {}", items.join(";"))
+                }
+            };
+            let mut o = stdout.lock();
+            let _ = writeln!(o, "{}", r);
+            let _ = o.flush();
+            continue;
+        }
         if mode == "lex" {
             let mut o = stdout.lock();
             let _ = writeln!(o, "{}", lex_line(&src).replace('\n', "\\n"));
